@@ -312,7 +312,9 @@ func lazyCase(c *C, r *Root, b []byte) {
 		// the abstract model is the eager semantics
 		eg2 := r.MT.New()
 		unm(false).Unmarshal(b, eg2.Interface())
-		c.Compare("dec: model vs eager decode", in, "ok "+r.Flat.Snap(eg2), c.Ask("dec 0 10000 0 %s", vh.Hex(b)))
+		// up to the spelling of unknown-field tags: the table-driven decoder re-encodes them, the model (like the
+		// reflection decoder) keeps the record byte for byte
+		c.Compare("dec: model vs eager decode", in, "ok "+r.Flat.SnapNorm(eg2, true), normSnapUnknown(c.Ask("dec 0 10000 0 %s", vh.Hex(b))))
 	}
 	c.Hist("result:ok")
 	c.Case(r.Name+string(b), true)
